@@ -433,7 +433,11 @@ func (c *CEnv) evalQuant(e *CExpr) Val {
 	}
 	body := env.evalBool(e.Args[0])
 	if e.Op == "forall" {
-		return Val{T: Forall(bvs, Implies(And(ranges...), body)), Ty: tyBool}
+		var pats []*Term
+		for _, p := range e.Pats {
+			pats = append(pats, env.eval(p).T)
+		}
+		return Val{T: Forall(bvs, Implies(And(ranges...), body), pats...), Ty: tyBool}
 	}
 	return Val{T: Exists(bvs, And(append(ranges, body)...)), Ty: tyBool}
 }
@@ -494,8 +498,9 @@ func (c *CEnv) evalCall(e *CExpr) Val {
 			return Val{T: slLen(v.T), Ty: tyInt}
 		}
 		if v.Ty.K == TOpaque && v.Ty.Go != nil {
-			if _, ok := v.Ty.Go.Underlying().(*types.Map); ok {
-				c.errf(e, "len of map unsupported")
+			if mt, ok := v.Ty.Go.Underlying().(*types.Map); ok {
+				_, lh := x.mapLenHeap(c.state(), mt)
+				return Val{T: c.state().sel(lh, v.T), Ty: tyInt}
 			}
 		}
 		c.errf(e, "len of non-slice")
@@ -821,6 +826,36 @@ func (c *CEnv) callSpec(e *CExpr, sf *SpecFunc, args []Val) Val {
 		flat = append(flat, c.specArgs(e, a, tys[i])...)
 	}
 	rty := pe.cty(sf.Ret)
+	if !sf.Rec && !sf.Opaque && x.fc != nil && c.state() != nil && containsStr(x.fc.Abstract, sf.Name) {
+		// abstracted in this function: an uninterpreted function of the
+		// arguments and of the heaps the body reads (found by tracing one
+		// expansion). Sound for proving: it only forgets the definition.
+		x.heapTrace = map[string]bool{}
+		flat = flat[:0]
+		for i, a := range args {
+			flat = append(flat, c.specArgs(e, a, tys[i])...)
+		}
+		x.specBodyInstanceIn(sf, flat, c)
+		names := sortedKeys(x.heapTrace)
+		x.heapTrace = nil
+		st := c.state()
+		var ts []*Term
+		var sorts []Sort
+		name := "abs_" + sf.Name
+		for _, hn := range names {
+			h := x.heap(st, hn, x.heapSorts[hn])
+			ts = append(ts, h)
+			sorts = append(sorts, h.Sort)
+			name += "_" + hn
+		}
+		for _, f := range flat {
+			ts = append(ts, f)
+			sorts = append(sorts, f.Sort)
+		}
+		rs := x.w.sortOf(rty, x.model)
+		x.sym.Func(name, sorts, rs)
+		return Val{T: mk(name, rs, ts...), Ty: rty}
+	}
 	if !sf.Rec && !sf.Opaque {
 		// non-recursive spec functions are expanded in place
 		return Val{T: x.specBodyInstanceIn(sf, flat, c), Ty: rty}
@@ -859,4 +894,13 @@ func (x *Exec) specBodyInstanceIn(sf *SpecFunc, flat []*Term, ctx *CEnv) *Term {
 	rty := pe.cty(sf.Ret)
 	v := pe.eval(sf.Body)
 	return x.coerceTo(v, rty)
+}
+
+func containsStr(xs []string, s string) bool {
+	for _, x := range xs {
+		if x == s {
+			return true
+		}
+	}
+	return false
 }
